@@ -45,6 +45,7 @@ func runC19(c *Ctx) {
 		return migrationReach(c.P)[fnPart]
 	})
 	checkCurrentVersionPropagatesReadFailure(c, "C19-R1")
+	checkVersionWidthsAgree(c, "C19-R1")
 	up := c.P.Func("walletdb/migration", "", "upgrade")
 	vta := c.P.Func("walletdb/migration", "", "VersionsToApply")
 	glv := c.P.Func("walletdb/migration", "", "GetLatestVersion")
